@@ -58,46 +58,141 @@ Proof.
     + rewrite Z.gtb_ltb in E. apply Z.ltb_ge in E. exists st. rewrite Z.min_l by lia. reflexivity.
 Qed.
 
-(* one operation keeps the counter in [-1, len-1] and never indexes outside the operation list *)
-Lemma exec_op_in_bounds : forall ops c o st,
-  targets_ok ops = true -> nth_op ops c = Some o ->
-  exec_op ops c o st = SErr \/ exists c' st', exec_op ops c o st = SOk c' st' /\ -1 <= c' < zlen ops.
+(* registered handlers carry a non-negative DECLARE counter *)
+Definition hok (st : state) : Prop := Forall (Forall (fun h : handler => 0 <= snd h)) (hscopes st).
+
+Lemma set_scopes_hs : forall st x v st', set_var st x v = Some st' -> hscopes st' = hscopes st.
 Proof.
-  intros ops c o st Hok Hn. destruct (nth_op_in _ _ _ Hn) as [Hin Hc].
+  intros st x v st' H. unfold set_var in H. destruct (set_scopes x v (scopes st)); [injection H as <-; reflexivity|].
+  destruct (assocN x (params st)); [injection H as <-; reflexivity | discriminate].
+Qed.
+
+Lemma hok_push : forall st, hok st -> hok (push_scope st).
+Proof. intros st H. unfold hok in *. cbn. constructor; [constructor | exact H]. Qed.
+
+Lemma hok_pop : forall st, hok st -> hok (pop_scope st).
+Proof. intros st H. unfold hok in *. cbn. destruct (hscopes st); [constructor|]. inversion H; assumption. Qed.
+
+Lemma hok_declare_var : forall st x v, hok st -> hok (declare_var st x v).
+Proof. intros st x v H. unfold declare_var. destruct (scopes st); exact H. Qed.
+
+Lemma hok_declare_handler : forall st k h c, hok st -> 0 <= c -> hok (declare_handler st (k, h, c)).
+Proof.
+  intros st k h c H Hc. unfold declare_handler. destruct (hscopes st) as [|s r] eqn:E; [exact H|].
+  unfold hok in *. cbn. rewrite E in H. inversion H as [|? ? Hs Hr]; subst. constructor; [|exact Hr].
+  apply Forall_app. split; [exact Hs | constructor; [exact Hc | constructor]].
+Qed.
+
+Lemma hok_fwd : forall o st, hok st -> hok (scope_effect_fwd o st).
+Proof. intros [[]|] st H; cbn; try exact H; [apply hok_push | apply hok_pop]; exact H. Qed.
+
+Lemma hok_bwd : forall o st, hok st -> hok (scope_effect_bwd o st).
+Proof. intros [[]|] st H; cbn; try exact H; [apply hok_pop | apply hok_push]; exact H. Qed.
+
+Lemma walk_fwd_hok : forall ops n counter target st c st',
+  hok st -> walk_fwd ops n counter target st = Some (c, st') -> hok st'.
+Proof.
+  intros ops n. induction n as [|n IH]; intros counter target st c st' H Hw; cbn [walk_fwd] in Hw;
+    destruct (counter <? target); try discriminate; try (injection Hw as <- <-; exact H).
+  destruct (nth_op ops counter) as [o|]; [|discriminate]. exact (IH _ _ _ _ _ (hok_fwd (Some o) st H) Hw).
+Qed.
+
+Lemma walk_bwd_hok : forall ops n counter target st c st',
+  hok st -> walk_bwd ops n counter target st = Some (c, st') -> hok st'.
+Proof.
+  intros ops n. induction n as [|n IH]; intros counter target st c st' H Hw; cbn [walk_bwd] in Hw;
+    destruct (counter >? target); try discriminate; try (injection Hw as <- <-; exact H).
+  destruct (nth_op ops counter) as [o|]; [|discriminate]. exact (IH _ _ _ _ _ (hok_bwd (Some o) st H) Hw).
+Qed.
+
+(* one operation keeps the counter >= -1, the handler table well formed, and never indexes outside the list *)
+Lemma exec_op_in_bounds : forall ops c o st,
+  targets_ok ops = true -> hok st -> nth_op ops c = Some o ->
+  exec_op ops c o st = SErr \/ exists c' st', exec_op ops c o st = SOk c' st' /\ -1 <= c' /\ hok st'.
+Proof.
+  intros ops c o st Hok Hh Hn. destruct (nth_op_in _ _ _ Hn) as [Hin Hc].
   unfold targets_ok in Hok. rewrite forallb_forall in Hok. specialize (Hok o Hin).
-  destruct o as [x e|u e|x v|cnd idx|t idx|l idx|l idx]; cbn [exec_op].
+  destruct o as [k h|d|x e|u e|x v|cnd idx|t idx|l idx|l idx]; cbn [exec_op].
+  - right. eexists c, _. split; [reflexivity|]. split; [lia | apply hok_declare_handler; [exact Hh | lia]].
+  - left. reflexivity.
   - destruct (eval st e) as [v|]; [|left; reflexivity].
-    destruct (set_var st x v) as [st'|]; [right; exists c, st'; split; [reflexivity|lia] | left; reflexivity].
-  - destruct (eval st e) as [v|]; [right; eexists c, _; split; [reflexivity|lia] | left; reflexivity].
-  - right. eexists c, _. split; [reflexivity|lia].
+    destruct (set_var st x v) as [st'|] eqn:Es; [|left; reflexivity].
+    right. exists c, st'. split; [reflexivity|]. split; [lia|]. unfold hok. rewrite (set_scopes_hs _ _ _ _ Es). exact Hh.
+  - destruct (eval st e) as [v|]; [right; eexists c, _; split; [reflexivity|split; [lia|exact Hh]] | left; reflexivity].
+  - right. eexists c, _. split; [reflexivity|]. split; [lia | apply hok_declare_var; exact Hh].
   - cbn in Hok. apply andb_prop in Hok. destruct Hok as [H1 H2]. apply Z.leb_le in H1, H2.
     destruct (eval st cnd) as [v|]; [|left; reflexivity]. right.
-    destruct (truthy v); [exists c, st | exists (idx - 1), st]; split; try reflexivity; lia.
+    destruct (truthy v); [exists c, st | exists (idx - 1), st]; (split; [reflexivity|]; split; [lia | exact Hh]).
   - cbn in Hok. apply andb_prop in Hok. destruct Hok as [H1 H2]. apply Z.leb_le in H1, H2. right.
     destruct (c <=? idx) eqn:E.
     + apply Z.leb_le in E.
       destruct (walk_fwd_ok ops (S (length ops + Z.to_nat (Z.abs idx) + Z.to_nat (Z.abs c))) c (idx - 1) st) as [st' Hs];
         [lia | lia | lia |].
-      rewrite Hs. exists (Z.max c (idx - 1)), st'. split; [reflexivity | lia].
+      rewrite Hs. exists (Z.max c (idx - 1)), st'. split; [reflexivity|]. split; [lia | exact (walk_fwd_hok _ _ _ _ _ _ _ Hh Hs)].
     + apply Z.leb_gt in E.
       destruct (walk_bwd_ok ops (S (length ops + Z.to_nat (Z.abs idx) + Z.to_nat (Z.abs c))) c (idx - 1) st) as [st' Hs];
         [lia | lia | lia |].
-      rewrite Hs. exists (Z.min c (idx - 1)), st'. split; [reflexivity | lia].
-  - right. eexists c, _. split; [reflexivity|lia].
-  - right. eexists c, _. split; [reflexivity|lia].
+      rewrite Hs. exists (Z.min c (idx - 1)), st'. split; [reflexivity|]. split; [lia | exact (walk_bwd_hok _ _ _ _ _ _ _ Hh Hs)].
+  - right. eexists c, _. split; [reflexivity|]. split; [lia | apply hok_push; exact Hh].
+  - right. eexists c, _. split; [reflexivity|]. split; [lia | apply hok_pop; exact Hh].
+Qed.
+
+Lemma exit_scan_ok : forall ops n pos rem,
+  0 <= pos -> (Z.to_nat (zlen ops - pos) <= n)%nat -> exists nc, exit_scan ops n pos rem = Some nc /\ pos <= nc.
+Proof.
+  intros ops n. induction n as [|n IH]; intros pos rem H0 Hn; cbn [exit_scan];
+    destruct ((rem =? 0) || (zlen ops <=? pos)) eqn:E; try (exists pos; split; [reflexivity | lia]).
+  - apply orb_false_elim in E. destruct E as [_ E]. apply Z.leb_gt in E. lia.
+  - apply orb_false_elim in E. destruct E as [_ E]. apply Z.leb_gt in E.
+    destruct (nth_op_some ops pos) as [o Ho]; [lia|]. rewrite Ho.
+    destruct o; (edestruct (IH (pos + 1)) as [nc [Hs Hle]]; [lia | lia | rewrite Hs; exists nc; split; [reflexivity | lia]]).
+Qed.
+
+Lemma in_concat_hok : forall st h, hok st -> In h (concat (hscopes st)) -> 0 <= snd h.
+Proof.
+  intros st h H Hin. apply in_concat in Hin. destruct Hin as [l [Hl Hh]].
+  unfold hok in H. rewrite Forall_forall in H. specialize (H l Hl). rewrite Forall_forall in H. exact (H h Hh).
+Qed.
+
+Lemma handle_error_in_bounds : forall ops c st, hok st -> 0 <= c ->
+  match handle_error ops c st with
+  | HGo c' st' => -1 <= c' /\ hok st'
+  | HPanic => False
+  | _ => True
+  end.
+Proof.
+  intros ops c st Hh Hc. unfold handle_error.
+  destruct (rev (concat (hscopes st))) as [|[[k h] hc] r] eqn:E; [exact I|].
+  assert (Hhc : 0 <= hc).
+  { apply (in_concat_hok st (k, h, hc) Hh). apply in_rev. rewrite E. left. reflexivity. }
+  destruct h as [x e|u e].
+  - destruct (run_hstmt st (HSet x e)) as [st'|] eqn:Er; [|exact I].
+    assert (Hh' : hok st').
+    { cbn in Er. destruct (eval st e) as [v|]; [|discriminate]. unfold hok. rewrite (set_scopes_hs _ _ _ _ Er). exact Hh. }
+    destruct k.
+    + destruct (exit_scan_ok ops (S (length ops)) hc 1 Hhc) as [nc [Hs Hle]]; [unfold zlen; lia|].
+      rewrite Hs. split; [lia | exact Hh'].
+    + split; [lia | exact Hh'].
+  - destruct (eval st e) as [v|]; [|exact I]. split; [lia | exact Hh].
 Qed.
 
 (* pc_in_bounds: with all jump indexes inside [0, len], no run of any length ever reaches the "negative function counter"
-   panic or indexes the operation list out of range *)
+   panic or indexes the operation list out of range (handlers included) *)
 Theorem pc_in_bounds : forall ops, targets_ok ops = true ->
-  forall fuel counter st, -1 <= counter < zlen ops \/ counter = -1 -> run ops fuel counter st <> MPanic.
+  forall fuel counter st, hok st -> -1 <= counter -> run ops fuel counter st <> MPanic.
 Proof.
-  intros ops Hok fuel. induction fuel as [|f IH]; intros counter st Hc; [discriminate|].
+  intros ops Hok fuel. induction fuel as [|f IH]; intros counter st Hh Hc; [discriminate|].
   cbn [run]. destruct (counter + 1 <? 0) eqn:E; [apply Z.ltb_lt in E; lia|].
   destruct (nth_op ops (counter + 1)) as [o|] eqn:Hn; [|discriminate].
-  destruct (exec_op_in_bounds ops (counter + 1) o st Hok Hn) as [He | [c' [st' [He Hb]]]]; rewrite He; [discriminate|].
-  apply IH. left. exact Hb.
+  destruct (exec_op_in_bounds ops (counter + 1) o st Hok Hh Hn) as [He | [c' [st' [He [Hb Hh']]]]]; rewrite He.
+  - pose proof (handle_error_in_bounds ops (counter + 1) st Hh ltac:(lia)) as Hhe.
+    destruct (handle_error ops (counter + 1) st) as [| | |c' st']; try discriminate; [contradiction|].
+    destruct Hhe as [Hb Hh']. exact (IH _ _ Hh' Hb).
+  - exact (IH _ _ Hh' Hb).
 Qed.
+
+Lemma hok_init : forall ps us, hok (init_state ps us).
+Proof. intros. unfold hok. cbn. constructor; constructor. Qed.
 
 (* helper constructors taking Z identifiers (the development is in Z_scope) *)
 Definition blk (l : Z) b := SBlock (Z.to_N l) b.
@@ -159,3 +254,73 @@ Lemma good_prog_agrees :
   exists st1 st2, exec 50 good_prog (init_state [] []) = (ONormal, st1) /\ call good_prog 500 [] [] = MDone st2 /\
     users st1 = users st2 /\ users st1 = [(0%N, Some 4); (1%N, Some 4)] /\ length (scopes st2) = 1%nat.
 Proof. split; [vm_compute; reflexivity|]. do 2 eexists. vm_compute. repeat split; reflexivity. Qed.
+
+(* ---------- handlers: refutation witnesses (all replayed on the engine by the driver's corpus) ---------- *)
+Definition hdl (k : hkind) (x v : Z) := SHandler k (HSet (Z.to_N x) (EConst v)).
+
+(* BEGIN DECLARE v0 INT DEFAULT 0; DECLARE v1 INT DEFAULT 1;
+     BEGIN DECLARE v1 INT DEFAULT 2; DECLARE EXIT HANDLER FOR SQLEXCEPTION SET v0 = 1; SIGNAL ...; SET @u1 = 1; END;
+     SET @u0 = v1; END *)
+Definition exit_leak_prog : stmt :=
+  blk 0 (SSeq (dcl 0 0) (SSeq (dcl 1 1)
+        (SSeq (blk 0 (SSeq (dcl 1 2) (SSeq (hdl HExit 0 1) (SSeq (SRaise false) (setu 1 (EConst 1))))))
+              (setu 0 (var 1))))).
+
+(* an EXIT handler continues after the ScopeEnd of its block without executing it: the block's scope is never popped *)
+Lemma exit_handler_leaks_scope :
+  (exists st, exec 20 exit_leak_prog (init_state [] []) = (ONormal, st) /\ assocN 0%N (users st) = Some (Some 1)
+              /\ assocN 1%N (users st) = None)
+  /\ (exists st, call exit_leak_prog 100 [] [] = MDone st /\ assocN 0%N (users st) = Some (Some 2)
+                 /\ assocN 1%N (users st) = None /\ length (scopes st) = 2%nat).
+Proof. split; eexists; vm_compute; repeat split; reflexivity. Qed.
+
+(* BEGIN DECLARE v0 INT DEFAULT 0; DECLARE CONTINUE HANDLER ... SET v0 = 10;
+     BEGIN DECLARE CONTINUE HANDLER ... SET v0 = 20; SIGNAL ...; END; SET @u0 = v0; END *)
+Definition nested_handler_prog : stmt :=
+  blk 0 (SSeq (dcl 0 0) (SSeq (hdl HContinue 0 10)
+        (SSeq (blk 0 (SSeq (hdl HContinue 0 20) (SRaise false))) (setu 0 (var 0))))).
+
+(* the most local handler must run; handleError keeps the last handler of ListHandlers, the outermost *)
+Lemma outermost_handler_wins :
+  (exists st, exec 20 nested_handler_prog (init_state [] []) = (ONormal, st) /\ assocN 0%N (users st) = Some (Some 20))
+  /\ (exists st, call nested_handler_prog 100 [] [] = MDone st /\ assocN 0%N (users st) = Some (Some 10)).
+Proof. split; eexists; vm_compute; split; reflexivity. Qed.
+
+(* BEGIN DECLARE CONTINUE HANDLER FOR SQLEXCEPTION SET @u0 = 1; SIGNAL ...; SET @u1 = 2; END *)
+Definition restart_prog : stmt :=
+  blk 0 (SSeq (SHandler HContinue (HSetUser 0 (EConst 1))) (SSeq (SRaise false) (setu 1 (EConst 2)))).
+
+(* a handler statement that returns rows (SET @u, INSERT ...) makes handleError return (-1, io.EOF): the procedure
+   restarts from its first operation, for ever *)
+Lemma handler_with_rows_restarts :
+  (exists st, exec 20 restart_prog (init_state [] []) = (ONormal, st) /\ assocN 1%N (users st) = Some (Some 2))
+  /\ call restart_prog 3000 [] [] = MNoFuel.
+Proof. split; [eexists; vm_compute; split; reflexivity | vm_compute; reflexivity]. Qed.
+
+(* non-vacuity for handlers: EXIT handler in an outer block, error in a nested block, no shadowing: agreement *)
+Definition handler_good_prog : stmt :=
+  blk 0 (SSeq (dcl 0 0)
+        (SSeq (blk 0 (SSeq (hdl HExit 0 1)
+                     (SSeq (blk 0 (SSeq (SRaise true) (setu 1 (EConst 1)))) (setu 2 (EConst 1)))))
+              (setu 0 (var 0)))).
+
+Lemma handler_good_agrees :
+  exists st1 st2, exec 30 handler_good_prog (init_state [] []) = (ONormal, st1) /\
+    call handler_good_prog 200 [] [] = MDone st2 /\ users st1 = users st2 /\ users st1 = [(0%N, Some 1)].
+Proof. do 2 eexists. vm_compute. repeat split; reflexivity. Qed.
+
+(* LOOP whose first body statement is a block with a shadowing declaration, ITERATE from inside the block *)
+Definition loop_block_prog : stmt :=
+  blk 0 (SSeq (dcl 0 1) (SSeq (dcl 1 0)
+        (SSeq (lop 1 (blk 0 (SSeq (dcl 0 50)
+                            (SSeq (set_ 1 (EBin Add (var 1) (EConst 1)))
+                            (SSeq (SIf (EBin Le (EConst 3) (var 1)) (lv 1) SSkip)
+                            (SSeq (SIf (EBin Eq (var 1) (EConst 1)) (itr 1) SSkip)
+                                  (set_ 0 (EBin Add (var 0) (EConst 1)))))))))
+              (setu 0 (var 0))))).
+
+Lemma loop_block_agrees :
+  exists st1 st2, exec 60 loop_block_prog (init_state [] []) = (ONormal, st1) /\
+    call loop_block_prog 500 [] [] = MDone st2 /\ users st1 = users st2 /\ users st1 = [(0%N, Some 1)]
+    /\ length (scopes st2) = 1%nat.
+Proof. do 2 eexists. vm_compute. repeat split; reflexivity. Qed.
